@@ -31,6 +31,7 @@ type sym struct {
 	Track  int
 	Record bool   // SETUP mode=record
 	Proto  string // SETUP: "tcp" | "udp" | "mcast"
+	Refuse int    // != 0: the application handler is asked to refuse the request with this status (no error)
 }
 
 var alphabet = []sym{
@@ -60,7 +61,19 @@ var extraSyms = []sym{
 	// track id = number of medias: a media that does not exist (boundary of the track lookup)
 	{Name: "SETUP2-play-tcp", Method: base.Setup, Track: 2, Proto: "tcp"},
 	{Name: "SETUP2-rec-tcp", Method: base.Setup, Track: 2, Record: true, Proto: "tcp"},
+	// requests that the application handler refuses with an error status and no error: the
+	// connection and the session stay, the state must not change
+	{Name: "PLAY-refused", Method: base.Play, Refuse: 403},
+	{Name: "RECORD-refused", Method: base.Record, Refuse: 403},
+	{Name: "PAUSE-refused", Method: base.Pause, Refuse: 503},
+	{Name: "SETUP1-play-tcp-refused", Method: base.Setup, Track: 1, Proto: "tcp", Refuse: 404},
+	{Name: "SETUP1-rec-tcp-refused", Method: base.Setup, Track: 1, Record: true, Proto: "tcp", Refuse: 404},
+	{Name: "ANNOUNCE-refused", Method: base.Announce, Refuse: 403},
+	{Name: "DESCRIBE-refused", Method: base.Describe, Refuse: 404},
 }
+
+// refusedFirst is the index (in symOf numbering) of the first handler-refused symbol.
+var refusedFirst = len(alphabet) + 5
 
 type sessVar int
 
@@ -122,6 +135,11 @@ const (
 // predict returns what the statement demands for request s in the current model state and the
 // state reached if the request succeeds.
 func (m *model) predict(s sym, sv sessVar, sessionKnown bool) (expect, int) {
+	if s.Refuse != 0 {
+		// refused by the library or by the application handler: an error status either way, and
+		// the state stays what it was
+		return mustFail, m.state
+	}
 	has := func(meth base.Method) bool { return rig.Implements(m.cfg.HandlerSet, meth) }
 	inSession := m.state != stNone && m.state != stClosed
 
@@ -419,6 +437,9 @@ func buildRequest(p *rig.Peer, ts *rig.TestServer, s sym, sessID string, clientP
 	h := base.Header{}
 	if sessID != "" {
 		h["Session"] = base.HeaderValue{sessID}
+	}
+	if s.Refuse != 0 {
+		h["X-Verif-Refuse"] = base.HeaderValue{fmt.Sprint(s.Refuse)}
 	}
 	playURL := ts.URL("/stream")
 	recURL := ts.URL("/pub")
@@ -946,8 +967,30 @@ func deepSequences(depth int) [][]step {
 		mk("ANNOUNCE", "SETUP0-rec-udp", "SETUP1-rec-udp", "RECORD"),
 		mk("ANNOUNCE", "SETUP0-rec-udp", "SETUP1-rec-udp", "RECORD", "PAUSE"),
 	}
+	// continuations over the alphabet plus the handler-refused symbols
+	idxs := make([]int, 0, len(alphabet)+8)
+	for i := range alphabet {
+		idxs = append(idxs, i)
+	}
+	for i := refusedFirst; i < len(alphabet)+len(extraSyms); i++ {
+		idxs = append(idxs, i)
+	}
+	var sufs [][]step
+	var rec func(prefix []step)
+	rec = func(prefix []step) {
+		if len(prefix) > 0 {
+			sufs = append(sufs, append([]step(nil), prefix...))
+		}
+		if len(prefix) == depth {
+			return
+		}
+		for _, i := range idxs {
+			rec(append(prefix, step{Sym: i}))
+		}
+	}
+	rec(nil)
 	var out [][]step
-	for _, suf := range allSequences(len(alphabet), depth) {
+	for _, suf := range sufs {
 		for _, p := range prefixes {
 			out = append(out, append(append([]step{}, p...), suf...))
 		}
